@@ -107,6 +107,11 @@ class DimEval:
                 return ANY
             if e.attr == "T":
                 return self.ev(e.value, env)
+            # dotted paths below self declared as a whole
+            # (e.g. 'elem.refdom.p': reference coordinates, dimensionless)
+            path = src(e)
+            if path.startswith("self.") and path[5:] in self.attrs:
+                return self.attrs[path[5:]]
             raise AnalysisError(f"dims: attribute {src(e)}")
         if isinstance(e, ast.BinOp):
             l, r = self.ev(e.left, env), self.ev(e.right, env)
